@@ -699,27 +699,27 @@ theorem gff_annotation_from_bytes_layout (crlf finalEol : Bool) (ver seqid sourc
     (extra : List (Bytes × List Bytes)) (rows : List GffRow) (genes : List Gene) (ref : List Nat)
     (hv : VerOk ver) (hne0 : rows ≠ []) (hok : ∀ r ∈ rows, GffRowOk seqid source dot extra r)
     (hrows : cdsRows rows = genes.flatMap Gene.rows)
-    (hoff : ∀ g ∈ genes, g.Offset) (hf : ∀ g ∈ genes, g.Faithful ref)
+    (hoff : ∀ g ∈ genes, g.Offset) (hst : ∀ g ∈ genes, g.AscStarts) (hf : ∀ g ∈ genes, g.Faithful ref)
     (hnd : (genes.map Gene.name).Nodup) (hne : ∀ g ∈ genes, g.name ≠ "") :
     regionsFromGffText (renderText crlf finalEol (GffText.renderLines ver (rowsToText seqid source dot extra rows))) ref =
       some (sortStable regionStartLt (genes.map Gene.region),
         codes (sortStable regionStartLt (genes.map Gene.region)) ref.length) := by
   rw [regionsFromGffText_of_rows _ rows none ref
     (gffRowsOfText_renderText crlf finalEol ver seqid source dot extra rows hv hne0 hok)]
-  exact RegionEquiv.gff_annotation rows genes ref hrows hoff hf hnd hne
+  exact RegionEquiv.gff_annotation rows genes ref hrows hoff hst hf hnd hne
 
 /-- the canonical layout -/
 theorem gff_annotation_from_bytes (ver seqid source : Bytes) (dot : Bool)
     (extra : List (Bytes × List Bytes)) (rows : List GffRow) (genes : List Gene) (ref : List Nat)
     (hv : VerOk ver) (hne0 : rows ≠ []) (hok : ∀ r ∈ rows, GffRowOk seqid source dot extra r)
     (hrows : cdsRows rows = genes.flatMap Gene.rows)
-    (hoff : ∀ g ∈ genes, g.Offset) (hf : ∀ g ∈ genes, g.Faithful ref)
+    (hoff : ∀ g ∈ genes, g.Offset) (hst : ∀ g ∈ genes, g.AscStarts) (hf : ∀ g ∈ genes, g.Faithful ref)
     (hnd : (genes.map Gene.name).Nodup) (hne : ∀ g ∈ genes, g.name ≠ "") :
     regionsFromGffText (GffText.render ver (rowsToText seqid source dot extra rows)) ref =
       some (sortStable regionStartLt (genes.map Gene.region),
         codes (sortStable regionStartLt (genes.map Gene.region)) ref.length) := by
   rw [GffRT.render_eq_renderText]
-  exact gff_annotation_from_bytes_layout false true ver seqid source dot extra rows genes ref hv hne0 hok hrows hoff hf hnd hne
+  exact gff_annotation_from_bytes_layout false true ver seqid source dot extra rows genes ref hv hne0 hok hrows hoff hst hf hnd hne
 
 /-- **annotation_equiv_from_bytes** - `RegionEquiv.annotation_equiv` with the GFF rows replaced by what is read from
 the written file: the GFF route on the BYTES returns the region list of the GenBank route, stably sorted by smallest
@@ -728,7 +728,7 @@ theorem annotation_equiv_from_bytes (ver seqid source : Bytes) (dot : Bool) (ext
     (fs : List GbFeature) (rows : List GffRow) (genes : List Gene) (ref : List Nat)
     (hv : VerOk ver) (hne0 : rows ≠ []) (hok : ∀ r ∈ rows, GffRowOk seqid source dot extra r)
     (hfs : AllDescribe fs genes) (hrows : cdsRows rows = genes.flatMap Gene.rows)
-    (hoff : ∀ g ∈ genes, g.Offset) (hor : ∀ g ∈ genes, g.Oriented) (hf : ∀ g ∈ genes, g.Faithful ref)
+    (hoff : ∀ g ∈ genes, g.Offset) (hst : ∀ g ∈ genes, g.AscStarts) (hor : ∀ g ∈ genes, g.Oriented) (hf : ∀ g ∈ genes, g.Faithful ref)
     (hnd : (genes.map Gene.name).Nodup) (hne : ∀ g ∈ genes, g.name ≠ "")
     (rsB interB : _) (hB : regionsFromGenbank fs ref.length = some (rsB, interB))
     (rsF interF : _)
@@ -736,7 +736,7 @@ theorem annotation_equiv_from_bytes (ver seqid source : Bytes) (dot : Bool) (ext
     rsB = genes.map Gene.region ∧ rsF = sortStable regionStartLt rsB ∧ rsF.Perm rsB ∧ interF = interB := by
   rw [regionsFromGffText_of_rows _ rows none ref
     (gffRowsOfText_render ver seqid source dot extra rows hv hne0 hok)] at hF
-  exact RegionEquiv.annotation_equiv fs rows genes ref hfs hrows hoff hor hf hnd hne rsB interB hB rsF interF hF
+  exact RegionEquiv.annotation_equiv fs rows genes ref hfs hrows hoff hst hor hf hnd hne rsB interB hB rsF interF hF
 
 /-- **variants_equiv_from_bytes** - hence the mutation records reported with the annotation read from the GFF3 bytes
 are those reported with the GenBank annotation, for every (reference row, query row) pair -/
@@ -744,7 +744,7 @@ theorem variants_equiv_from_bytes (ver seqid source : Bytes) (dot : Bool) (extra
     (fs : List GbFeature) (rows : List GffRow) (genes : List Gene) (ref : List Nat)
     (hv : VerOk ver) (hne0 : rows ≠ []) (hok : ∀ r ∈ rows, GffRowOk seqid source dot extra r)
     (hfs : AllDescribe fs genes) (hrows : cdsRows rows = genes.flatMap Gene.rows)
-    (hoff : ∀ g ∈ genes, g.Offset) (hor : ∀ g ∈ genes, g.Oriented) (hf : ∀ g ∈ genes, g.Faithful ref)
+    (hoff : ∀ g ∈ genes, g.Offset) (hst : ∀ g ∈ genes, g.AscStarts) (hor : ∀ g ∈ genes, g.Oriented) (hf : ∀ g ∈ genes, g.Faithful ref)
     (hnd : (genes.map Gene.name).Nodup) (hne : ∀ g ∈ genes, g.name ≠ "")
     (rsB : List Region) (interB : List Nat) (hB : regionsFromGenbank fs ref.length = some (rsB, interB))
     (rsF : List Region) (interF : List Nat)
@@ -753,20 +753,20 @@ theorem variants_equiv_from_bytes (ver seqid source : Bytes) (dot : Bool) (extra
     v ∈ getVariantsPair refRow qRow rsF interF ↔ v ∈ getVariantsPair refRow qRow rsB interB := by
   rw [regionsFromGffText_of_rows _ rows none ref
     (gffRowsOfText_render ver seqid source dot extra rows hv hne0 hok)] at hF
-  exact RegionEquiv.variants_equiv fs rows genes ref hfs hrows hoff hor hf hnd hne rsB interB hB rsF interF hF refRow qRow v
+  exact RegionEquiv.variants_equiv fs rows genes ref hfs hrows hoff hst hor hf hnd hne rsB interB hB rsF interF hF refRow qRow v
 
 /-- both routes succeed on the bytes (the hypotheses hB, hF above are not vacuous) -/
 theorem both_succeed_from_bytes (ver seqid source : Bytes) (dot : Bool) (extra : List (Bytes × List Bytes))
     (fs : List GbFeature) (rows : List GffRow) (genes : List Gene) (ref : List Nat)
     (hv : VerOk ver) (hne0 : rows ≠ []) (hok : ∀ r ∈ rows, GffRowOk seqid source dot extra r)
     (hfs : AllDescribe fs genes) (hrows : cdsRows rows = genes.flatMap Gene.rows)
-    (hoff : ∀ g ∈ genes, g.Offset) (hor : ∀ g ∈ genes, g.Oriented) (hf : ∀ g ∈ genes, g.Faithful ref)
+    (hoff : ∀ g ∈ genes, g.Offset) (hst : ∀ g ∈ genes, g.AscStarts) (hor : ∀ g ∈ genes, g.Oriented) (hf : ∀ g ∈ genes, g.Faithful ref)
     (hnd : (genes.map Gene.name).Nodup) (hne : ∀ g ∈ genes, g.name ≠ "") :
     (regionsFromGenbank fs ref.length).isSome = true ∧
     (regionsFromGffText (GffText.render ver (rowsToText seqid source dot extra rows)) ref).isSome = true := by
   rw [regionsFromGffText_of_rows _ rows none ref
     (gffRowsOfText_render ver seqid source dot extra rows hv hne0 hok)]
-  exact RegionEquiv.both_succeed fs rows genes ref hfs hrows hoff hor hf hnd hne
+  exact RegionEquiv.both_succeed fs rows genes ref hfs hrows hoff hst hor hf hnd hne
 
 /-! ### non-vacuity: a concrete GFF3 file (a gene line, then the three CDS lines of the two genes of `RegionEquiv`) -/
 
@@ -798,7 +798,7 @@ example : regionsFromGffText (GffText.render [51] (rowsToText exSeqid exSource t
   rw [regionsFromGffText_of_rows _ exRows none _
     (gffRowsOfText_render [51] exSeqid exSource true [] exRows GffRT.sampleVer_ok (by decide) exRows_ok)]
   exact RegionEquiv.annotation_equal_of_sorted RegionEquiv.nvFs exRows [RegionEquiv.nvA, RegionEquiv.nvB] RegionEquiv.nvRef h1
-    exRows_cds h2 (fun g hg => RegionEquiv.oriented_of_asc_faithful g RegionEquiv.nvRef (h3 g hg) (h4 g hg)) h4 h5 h6 h7
+    exRows_cds h2 RegionEquiv.nv_ascStarts (fun g hg => RegionEquiv.oriented_of_asc_faithful g RegionEquiv.nvRef (h3 g hg) (h4 g hg)) h4 h5 h6 h7
 
 /-- and by plain evaluation of the text reader and the region builder -/
 example : (regionsFromGffText (GffText.render [51] (rowsToText exSeqid exSource true [] exRows)) RegionEquiv.nvRef).map
